@@ -1,5 +1,6 @@
 import SmtpV.Props.DataMonitor
 import SmtpV.Proofs.BdatEof
+import SmtpV.Proofs.CutLine
 /-!
 # C07 — an incomplete message is never presented to the backend as complete (DATA reader part)
 
@@ -62,5 +63,37 @@ theorem C07_abandoned_is_reset (s : S) (k : Nat) (hb : s.c.bdat = some k) (hr : 
 /-- resetting and closing never add an end-of-file record, whatever the state -/
 theorem C07_reset_close_no_eof (s : S) : NoNewEof s (resetConn s) ∧ NoNewEof s (closeConn s) :=
   ⟨nne_resetConn s, nne_closeConn s⟩
+
+/-- **C07_cut_connection_no_eof.**  The connection ends — the peer disconnects, or the idle timeout fires — while no line feed is
+    pending: in the middle of a command line, for instance of the `BDAT 0 LAST` that would have completed the message.  The rest of
+    the connection (the command loop, then the deferred `Close`) records no end of file for any delivery: a transfer that was open
+    stays incomplete.  (Before e062bf7 the unterminated `BDAT 0 LAST` was executed and the message reported complete.) -/
+theorem C07_cut_connection_no_eof (fuel : Nat) (s : S) (h : NoLF (pending s.w)) : NoNewEof s (closeConn (loop fuel s)) := by
+  have hl : NoNewEof s (loop fuel s) := by
+    cases fuel with
+    | zero => exact NoNewEof.rfl' s
+    | succ fuel =>
+      unfold loop
+      split
+      · exact NoNewEof.rfl' s
+      · obtain ⟨e, he⟩ := readLine_cut s.w h
+        have hd : (connReadLine s).1.drecs = s.drecs := by
+          unfold connReadLine; rcases Wire.readLine s.w with ⟨w1, r⟩; rfl
+        have he' : (connReadLine s).2 = .error e := by
+          unfold connReadLine
+          rcases hr : Wire.readLine s.w with ⟨w1, r⟩
+          rw [hr] at he
+          exact he
+        rcases hr : connReadLine s with ⟨s1, r⟩
+        rw [hr] at hd he'
+        simp only [] at hd he' ⊢
+        subst he'
+        have h1 : NoNewEof s s1 := NoNewEof.of_drecs hd
+        cases e with
+        | eof => exact h1
+        | closed => exact h1
+        | tooLong => exact h1.trans (nne_reply _ _ _ _)
+        | timeout => exact h1.trans (nne_reply _ _ _ _)
+  exact hl.trans (nne_closeConn _)
 
 end SmtpV.Props.C07
